@@ -10,7 +10,7 @@ from vf.model.rnd import urandoms
 
 PID = "C08"
 LEVEL = "exploration"
-BUDGET = {"quick": 5000, "thorough": 200000}
+BUDGET = {"quick": 8000, "thorough": 200000}
 VENDORS = ["huawei", "cisco", "arista", "h3c", "nexus"]
 RULE = ("Three case kinds. 'gen': Hypothesis draws a patching rule tree (default / undo_redo / %ordered), an ordering rulebook derived from "
         "it (per level a permutation of a subset of the rule heads - pairwise disjoint languages -, entries pinned with %order_reverse "
